@@ -168,8 +168,8 @@ def build_all(force=False):
         # 4. extraction + OCaml driver
         ex = os.path.join(COQ, "extract")
         rc, out = sh("coqc -Q ../theories KV Extract.v 2>&1 && ocamlfind ocamlopt -O3 -package str "
-                     "kmodel.mli kmodel.ml driver.ml -o kmodel 2>&1 || ocamlfind ocamlopt -package str "
-                     "kmodel.mli kmodel.ml driver.ml -o kmodel 2>&1", cwd=ex, timeout=600)
+                     "kmodel.mli kmodel.ml h2check.ml driver.ml -o kmodel 2>&1 || ocamlfind ocamlopt -package str "
+                     "kmodel.mli kmodel.ml h2check.ml driver.ml -o kmodel 2>&1", cwd=ex, timeout=600)
         b.ok["extract"] = rc == 0 and os.path.exists(KMODEL)
         b.logs["extract"] = out[-3000:]
         json.dump({"digest": digest, "ok": b.ok, "logs": b.logs, "coq_failed_files": b.coq_failed_files},
